@@ -68,13 +68,17 @@ func TestTqvWitness(t *testing.T) {
 		for _, flags := range []HeaderFlag{0, UnencryptedFlag, SingleConnect} {
 			for _, sid := range []SessionID{0, 1, 0x01020304, 0xffffffff} {
 				for _, typ := range []HeaderType{Authenticate, Authorize, Accounting} {
-					for _, restart := range []bool{false, true} {
+					for _, rm := range []int{0, 1, 2, 3} {
+						restart, minor := rm&1 == 1, uint8(MinorVersionDefault)
+						if rm&2 == 2 {
+							minor = uint8(MinorVersionOne)
+						}
 						if restart && typ != Authenticate {
 							continue
 						}
 						n++
 						conn := &tqvConn{}
-						ver := Version{MajorVersion: MajorVersion, MinorVersion: MinorVersionDefault}
+						ver := Version{MajorVersion: MajorVersion, MinorVersion: minor}
 						req := Header{Version: ver, Type: typ, SeqNo: SequenceNumber(seq), Flags: flags, SessionID: sid}
 						r := &response{ctx: context.Background(), crypter: newCrypter(secret, conn, false), loggerProvider: tqvLogger{}, header: req}
 						var body EncoderDecoder
@@ -95,7 +99,7 @@ func TestTqvWitness(t *testing.T) {
 						if restart {
 							wantSeq = 1
 						}
-						desc := fmt.Sprintf("request seq=%d flags=%d session=%#x type=%d restart=%v", seq, flags, uint32(sid), typ, restart)
+						desc := fmt.Sprintf("request version=%d.%d seq=%d flags=%d session=%#x type=%d restart=%v", ver.MajorVersion, ver.MinorVersion, seq, flags, uint32(sid), typ, restart)
 						add := func(f string, a ...interface{}) {
 							if len(bad) < 5 {
 								bad = append(bad, desc+": "+fmt.Sprintf(f, a...))
@@ -104,6 +108,9 @@ func TestTqvWitness(t *testing.T) {
 						if wantSeq > 255 {
 							if len(got) != 0 || err == nil {
 								add("a reply numbered %d cannot exist: wrote %d bytes, err=%v", wantSeq, len(got), err)
+							}
+							if int(r.header.SeqNo) < seq {
+								add("after the refused reply the response remembers sequence number %d for a session that had reached %d: the session's sequence space starts over", r.header.SeqNo, seq)
 							}
 							continue
 						}
